@@ -13,6 +13,7 @@ import (
 	"regexp"
 	"runtime"
 	"strings"
+	"sync"
 	"time"
 
 	"github.com/samber/ro"
@@ -131,6 +132,25 @@ func runLeakCase(c *Case) string {
 	}
 	waitNoRo(300 * time.Millisecond)
 	rec := &Recorder{}
+	// end=inside: the downstream side closes the subscription from INSIDE the delivery of a value (what Take,
+	// First, TakeWhile … further down a chain do when they complete on that value): the operator's teardown runs
+	// on the goroutine that is emitting, while the operator is still in the middle of its emission
+	var subMu sync.Mutex
+	var subHolder ro.Subscription
+	cutInside := false
+	if end == "inside" {
+		rec.afterN = func() {
+			subMu.Lock()
+			s, done := subHolder, cutInside
+			if s != nil {
+				cutInside = true
+			}
+			subMu.Unlock()
+			if s != nil && !done {
+				s.Unsubscribe()
+			}
+		}
+	}
 	script := []Tok{{'N', 1, 1}, {'N', 2, 2}, {'N', 3, 3}}
 	switch end {
 	case "complete":
@@ -142,6 +162,9 @@ func runLeakCase(c *Case) string {
 	var sub ro.Subscription
 	if op.src {
 		sub = op.sub(probe.Observable(), rec)
+		subMu.Lock()
+		subHolder = sub
+		subMu.Unlock()
 		// operators that subscribe their source from a goroutine of their own (ToChannel sleeps 1 ms
 		// first): wait until the probe has been subscribed before playing the script
 		for deadline := time.Now().Add(2 * time.Second); time.Now().Before(deadline); time.Sleep(200 * time.Microsecond) {
@@ -158,8 +181,25 @@ func runLeakCase(c *Case) string {
 		}
 	} else {
 		sub = op.sub(nil, rec)
+		subMu.Lock()
+		subHolder = sub
+		subMu.Unlock()
 		time.Sleep(3 * time.Millisecond)
-		end = "unsub"
+		if end != "inside" {
+			end = "unsub"
+		}
+	}
+	if end == "inside" {
+		// everything has been pushed; give the timers a moment to deliver, then (if nothing was ever delivered,
+		// e.g. SampleTime without a tick in between) close from outside so that the case still ends
+		time.Sleep(5 * time.Millisecond)
+		subMu.Lock()
+		cut := cutInside
+		cutInside = true
+		subMu.Unlock()
+		if !cut {
+			sub.Unsubscribe()
+		}
 	}
 	if end == "unsub" {
 		time.Sleep(2 * time.Millisecond)
@@ -197,9 +237,15 @@ func genLeak(tier string, seed int64, only string) []*Case {
 	var cases []*Case
 	id := 0
 	for _, n := range names {
+		if only != "" && n != only {
+			continue
+		}
 		ends := []string{"unsub"}
 		if leakOps[n].src && n != "MergeWithInterval" {
 			ends = []string{"unsub", "complete", "error"}
+		}
+		if n != "ToChannel" && n != "Never" && n != "FromChannel" { // ToChannel delivers a channel, not values; the other two never deliver
+			ends = append(ends, "inside")
 		}
 		for _, e := range ends {
 			id++
